@@ -164,7 +164,7 @@ class FakeRequest:
         return self
 
 
-def curl_command_clean(secret: str, where: int, sanitize: bool) -> bool:
+def curl_command_clean(secret: str, where: int, sanitize: bool, nested: bool) -> bool:
     """
     pre: len(secret) <= N and _is_secret_text(secret) and 0 <= where <= 3
     post: _
@@ -180,7 +180,10 @@ def curl_command_clean(secret: str, where: int, sanitize: bool) -> bool:
         cookies = {"sessionid": secret}
     else:
         extra = {"X-Api-Key": secret}
+    if nested and where == 1:
+        query["filter"] = {"token": secret, "tags": ["x"]}
     case = mk_case(OP, "c0", headers=headers, query=query, cookies=cookies)
+    before = (dict(headers), {k: (dict(v) if isinstance(v, dict) else v) for k, v in query.items()}, None if cookies is None else dict(cookies))
     saved = requests.Request, curl.quote, SCHEMA.output_config.sanitize
     requests.Request, curl.quote = FakeRequest, (lambda s: "'" + s + "'")
     SCHEMA.output_config.sanitize = sanitize
@@ -188,6 +191,8 @@ def curl_command_clean(secret: str, where: int, sanitize: bool) -> bool:
         command = case.as_curl_command(headers=extra)
     finally:
         requests.Request, curl.quote, SCHEMA.output_config.sanitize = saved
+    if (case.headers, case.query, case.cookies) != before:
+        return False  # redaction is confined to the printed command: the case that is (re)sent keeps its real values
     if sanitize:
         return secret not in command and "page=1" in command and "Accept: a" in command
     return secret in command  # turning sanitization off shows the real values again
@@ -206,7 +211,7 @@ OBLIGATIONS = [
        timeout=300, functions=["schemathesis.core.output.sanitization.configure", "schemathesis.core.output.sanitization.extend", "schemathesis.core.output.sanitization.SanitizationConfig.from_config",
                                "schemathesis.core.output.sanitization.SanitizationConfig.extend", "schemathesis.core.output.sanitization.sanitize_value", "schemathesis.core.output.sanitization.sanitize_url"],
        symbolic="which customisation was applied before (none / extend / configure, keys or markers), entry point (value or URL), nesting", bounds="5 histories of one customisation call"),
-    Ob(fn="curl_command_clean", clause="the reproduction command contains no secret from headers, query, cookies or user-supplied extra headers when sanitization is on, and the real values when it is off",
+    Ob(fn="curl_command_clean", clause="the reproduction command contains no secret from headers, query, cookies or user-supplied extra headers when sanitization is on, and the real values when it is off; producing it leaves the case itself (the data that is sent) unchanged",
        timeout={"quick": 300, "thorough": 600}, functions=["schemathesis.generation.case.Case.as_curl_command", "schemathesis.transport.prepare.prepare_request", "schemathesis.core.curl.generate"],
        symbolic="the secret, the place it travels in (4), the sanitize switch", bounds={"quick": "secret <= 2 characters", "thorough": "<= 3"},
        stubs=["requests.Request.prepare replaced by plain concatenation (no percent-encoding)", "shlex.quote replaced by plain single quotes"],
